@@ -30,18 +30,19 @@ theorem trueContains_eq_mem (F : Flags) (hF : F.pointsOK) :
   | diff a b _ _ => intro hk; simp [Reg.kind] at hk
   | _ => intro _ p; simp [trueContains, containsPoint, containsPrim, Reg.mem, Shape2.mem, h1, h2, h3]
 
-example : (⟨true, .selfZ, .selfZ, false, true, .selfZ, .selfZ, true, true, true⟩ : Flags).pointsOK :=
+example : (⟨true, .selfZ, .selfZ, false, true, .selfZ, .selfZ, true, true, true, false⟩ : Flags).pointsOK :=
   ⟨rfl, rfl, rfl⟩
 
-/-- the membership realised by the generic samplers (`_trueContainsPoint` of every part) is
-    3-coordinate membership, composites included -/
-theorem memCode_eq_mem (F : Flags) (hF : F.pointsOK) : ∀ (R : Reg) p, memCode F R p = R.mem p := by
+/-- when the composite regions define `_trueContainsPoint` structurally, it is 3-coordinate membership for
+    **every** region, nested composites included -/
+theorem trueContains_eq_mem_all (F : Flags) (hF : F.pointsOK) (hs : F.compTrueStructural = true) :
+    ∀ (R : Reg) p, trueContains F R p = R.mem p := by
   intro R
   induction R with
-  | lzy r ih => intro p; simpa [memCode, Reg.mem] using ih p
-  | inter a b iha ihb => intro p; simp [memCode, Reg.mem, iha p, ihb p]
-  | union a b iha ihb => intro p; simp [memCode, Reg.mem, iha p, ihb p]
-  | diff a b iha ihb => intro p; simp [memCode, Reg.mem, iha p, ihb p]
+  | lzy r ih => intro p; simpa [trueContains, Reg.mem] using ih p
+  | inter a b iha ihb => intro p; simp [trueContains, hs, Reg.mem, iha p, ihb p]
+  | union a b iha ihb => intro p; simp [trueContains, hs, Reg.mem, iha p, ihb p]
+  | diff a b iha ihb => intro p; simp [trueContains, hs, Reg.mem, iha p, ihb p]
   | all => intro p; exact trueContains_eq_mem F hF .all (by simp [Reg.kind]) p
   | empty => intro p; exact trueContains_eq_mem F hF .empty (by simp [Reg.kind]) p
   | planar z s => intro p; exact trueContains_eq_mem F hF (.planar z s) (by simp [Reg.kind]) p
@@ -52,6 +53,90 @@ theorem memCode_eq_mem (F : Flags) (hF : F.pointsOK) : ∀ (R : Reg) p, memCode 
   | pts ps => intro p; exact trueContains_eq_mem F hF (.pts ps) (by simp [Reg.kind]) p
   | vol b => intro p; exact trueContains_eq_mem F hF (.vol b) (by simp [Reg.kind]) p
   | surf b => intro p; exact trueContains_eq_mem F hF (.surf b) (by simp [Reg.kind]) p
+
+/-- the operands of a composite are primitive (what `A.op(B)` builds from two primitive regions) -/
+def flatComp : Reg → Prop
+  | .lzy r => flatComp r
+  | .inter a b => a.kind ≠ .comp ∧ b.kind ≠ .comp
+  | .union a b => a.kind ≠ .comp ∧ b.kind ≠ .comp
+  | .diff a b => a.kind ≠ .comp ∧ b.kind ≠ .comp
+  | _ => True
+
+/-- the membership realised by the generic samplers (`_trueContainsPoint` of the immediate parts) is
+    3-coordinate membership for primitives and for composites of primitives -/
+theorem memCode_eq_mem (F : Flags) (hF : F.pointsOK) : ∀ (R : Reg), flatComp R → ∀ p, memCode F R p = R.mem p := by
+  intro R
+  induction R with
+  | lzy r ih => intro hf p; simpa [memCode, Reg.mem] using ih hf p
+  | inter a b _ _ =>
+    intro hf p
+    simp [memCode, Reg.mem, trueContains_eq_mem F hF a hf.1 p, trueContains_eq_mem F hF b hf.2 p]
+  | union a b _ _ =>
+    intro hf p
+    simp [memCode, Reg.mem, trueContains_eq_mem F hF a hf.1 p, trueContains_eq_mem F hF b hf.2 p]
+  | diff a b _ _ =>
+    intro hf p
+    simp [memCode, Reg.mem, trueContains_eq_mem F hF a hf.1 p, trueContains_eq_mem F hF b hf.2 p]
+  | all => intro _ p; exact trueContains_eq_mem F hF .all (by simp [Reg.kind]) p
+  | empty => intro _ p; exact trueContains_eq_mem F hF .empty (by simp [Reg.kind]) p
+  | planar z s => intro _ p; exact trueContains_eq_mem F hF (.planar z s) (by simp [Reg.kind]) p
+  | disc z c r => intro _ p; exact trueContains_eq_mem F hF (.disc z c r) (by simp [Reg.kind]) p
+  | foot s => intro _ p; exact trueContains_eq_mem F hF (.foot s) (by simp [Reg.kind]) p
+  | line c => intro _ p; exact trueContains_eq_mem F hF (.line c) (by simp [Reg.kind]) p
+  | path c => intro _ p; exact trueContains_eq_mem F hF (.path c) (by simp [Reg.kind]) p
+  | pts ps => intro _ p; exact trueContains_eq_mem F hF (.pts ps) (by simp [Reg.kind]) p
+  | vol b => intro _ p; exact trueContains_eq_mem F hF (.vol b) (by simp [Reg.kind]) p
+  | surf b => intro _ p; exact trueContains_eq_mem F hF (.surf b) (by simp [Reg.kind]) p
+
+example : flatComp (.inter (.planar 5 unitDisc) (.vol (Box.aligned ⟨0, 0, 5⟩ ⟨1, 1, 1⟩))) := by
+  simp [flatComp, Reg.kind]
+
+/-- … and for every region, nested composites included, once the composites define `_trueContainsPoint`
+    structurally -/
+theorem memCode_eq_mem_all (F : Flags) (hF : F.pointsOK) (hs : F.compTrueStructural = true) :
+    ∀ (R : Reg) p, memCode F R p = R.mem p := by
+  intro R
+  induction R with
+  | lzy r ih => intro p; simpa [memCode, Reg.mem] using ih p
+  | inter a b _ _ => intro p; simp [memCode, Reg.mem, trueContains_eq_mem_all F hF hs]
+  | union a b _ _ => intro p; simp [memCode, Reg.mem, trueContains_eq_mem_all F hF hs]
+  | diff a b _ _ => intro p; simp [memCode, Reg.mem, trueContains_eq_mem_all F hF hs]
+  | all => intro p; exact trueContains_eq_mem_all F hF hs .all p
+  | empty => intro p; exact trueContains_eq_mem_all F hF hs .empty p
+  | planar z s => intro p; exact trueContains_eq_mem_all F hF hs (.planar z s) p
+  | disc z c r => intro p; exact trueContains_eq_mem_all F hF hs (.disc z c r) p
+  | foot s => intro p; exact trueContains_eq_mem_all F hF hs (.foot s) p
+  | line c => intro p; exact trueContains_eq_mem_all F hF hs (.line c) p
+  | path c => intro p; exact trueContains_eq_mem_all F hF hs (.path c) p
+  | pts ps => intro p; exact trueContains_eq_mem_all F hF hs (.pts ps) p
+  | vol b => intro p; exact trueContains_eq_mem_all F hF hs (.vol b) p
+  | surf b => intro p; exact trueContains_eq_mem_all F hF hs (.surf b) p
+
+/-- **defect of the current code** (finding `intersects:pts-comp:*`, `sample:*-comp:*`): a composite region inherits
+    `Region._trueContainsPoint = containsPoint`, which evaluates the *footprint* of intersections and differences:
+    the box minus a disc at height 1 contains the point (0,0,0), `_trueContainsPoint` says it does not -/
+theorem trueContains_composite_witness (F : Flags) (hs : F.compTrueStructural = false) :
+    trueContains F (.diff (.vol (Box.aligned ⟨0, 0, 0⟩ ⟨2, 2, 2⟩)) (.planar 1 unitDisc)) ⟨0, 0, 0⟩ = false ∧
+    (Reg.diff (.vol (Box.aligned ⟨0, 0, 0⟩ ⟨2, 2, 2⟩)) (.planar 1 unitDisc)).mem ⟨0, 0, 0⟩ = true := by
+  constructor
+  · simp [trueContains, hs, containsPoint, containsFoot, containsPrim, unitDisc, Shape2.mem, V2.dsq, sq, Pt.xy]
+  · simp [Reg.mem, Box.mem, Box.local, Box.aligned, Pt.dot, Pt.sub, absR]
+
+/-- the specialised sampler of `PointSetRegion.intersect(other)` chooses among exactly the points of the set that
+    belong to `other` in three coordinates (repair 1511e557 made it ask `_trueContainsPoint`) -/
+theorem ptsSampler_support (F : Flags) (hF : F.pointsOK) (A B : Reg) (ha : A.kind = .pts)
+    (hb : B.kind ≠ .comp ∨ F.compTrueStructural = true) (p : Pt) :
+    p ∈ ptsSamplerSupport F A B ↔ (A.mem p = true ∧ B.mem p = true) := by
+  have hB : ∀ q, trueContains F B q = B.mem q := by
+    rcases hb with hb | hs
+    · exact trueContains_eq_mem F hF B hb
+    · exact trueContains_eq_mem_all F hF hs B
+  simp only [ptsSamplerSupport, List.mem_filter, hB, (kind_pts_cases F A ha p).1, List.contains_eq_mem,
+    decide_eq_true_eq]
+
+example : (⟨0, 0, 5⟩ : Pt) ∈ ptsSamplerSupport ⟨true, .selfZ, .selfZ, true, true, .selfZ, .selfZ, true, true, true, false⟩
+    (.pts [⟨0, 0, 5⟩, ⟨0, 0, 0⟩]) (.planar 5 unitDisc) := by
+  simp [ptsSamplerSupport, Reg.points, trueContains, unitDisc, Shape2.mem, V2.dsq, sq, Pt.xy]
 
 /-- `containsPoint` itself is *not* 3-coordinate membership (footprint semantics, by design): a composite
     region containing a polygon at height 5 "contains" a point at height 0 -/
@@ -96,7 +181,8 @@ def isectHandlerOK (F : Flags) (c : Ctl) : Handler → Bool
   | .lineIntersects => c.ka == .line && (c.kb == .foot || c.kb == .line || (planarK c.kb && !c.eb))
   | .discIntersects => c.ka == .disc && c.kb == .disc && !c.zne
   | .ptsAny => c.ka == .pts && exactContains F c.kb
-  | .ptsAnyTrue => c.ka == .pts && c.kb != .comp && F.polyTrueChecksZ && F.discContainsChecksZ && F.lineContainsChecksZ
+  | .ptsAnyTrue => c.ka == .pts && (c.kb != .comp || F.compTrueStructural) && F.polyTrueChecksZ && F.discContainsChecksZ
+      && F.lineContainsChecksZ
   | .volVolIntersects => c.ka == .vol && c.kb == .vol
   | .volSurfIntersects => c.ka == .vol && c.kb == .surf
   | .volFootIntersects => c.ka == .vol && c.kb == .foot
@@ -181,9 +267,9 @@ theorem disc_intersects_iff (z : Rat) (c1 c2 : V2) (r1 r2 : Rat) (h1 : 0 ≤ r1)
 example : ∃ p, (Reg.disc 5 ⟨0, 0⟩ 1).mem p = true ∧ (Reg.disc 5 ⟨1, 0⟩ 1).mem p = true :=
   (disc_intersects_iff 5 ⟨0, 0⟩ ⟨1, 0⟩ 1 1 (by norm_num) (by norm_num)).mp (by simp [Pt.dsq, V2.at, sq]; norm_num)
 
-/-- **defect of the pinned code** (finding `intersects:disc-disc:z-differ:false-positive`): the override in
-    `CircularRegion` skips the height test of `PolygonalRegion.intersects`; two unit discs one above the other
-    "intersect" although they share no point -/
+/-- why the height guard added to `CircularRegion.intersects` by 617805a9 is needed: the centre-distance test alone
+    makes two unit discs one above the other "intersect" although they share no point (`isectHandlerOK` accepts
+    `discIntersects` only for equal heights, so a table without the guard fails `gen_routes_intersects_sound`) -/
 theorem disc_intersects_height_witness (O : Oracle) (F : Flags) :
     runH O F .discIntersects (.disc 0 ⟨0, 0⟩ 1) (.disc 1 ⟨0, 0⟩ 1) = .bool true ∧
     ¬ ∃ p, (Reg.disc 0 ⟨0, 0⟩ 1).mem p = true ∧ (Reg.disc 1 ⟨0, 0⟩ 1).mem p = true := by
@@ -193,8 +279,8 @@ theorem disc_intersects_height_witness (O : Oracle) (F : Flags) :
     simp only [Reg.mem, Bool.and_eq_true, decide_eq_true_eq] at h1 h2
     linarith [h1.1, h2.1]
 
-/-- **defect of the pinned code** (finding `intersects:pts-poly:*:false-positive`): `PointSetRegion.intersects`
-    asks `other.containsPoint`, which for a polygon ignores the height -/
+/-- why `PointSetRegion.intersects` must ask `_trueContainsPoint` (repair 1511e557): `other.containsPoint` ignores
+    the height of a polygon -/
 theorem ptsAny_footprint_witness (O : Oracle) (F : Flags) :
     runH O F .ptsAny (.pts [⟨0, 0, 0⟩]) (.planar 5 unitDisc) = .bool true ∧
     ¬ ∃ p, (Reg.pts [⟨0, 0, 0⟩]).mem p = true ∧ (Reg.planar 5 unitDisc).mem p = true := by
@@ -347,10 +433,13 @@ theorem isectHandler_sound (h : Handler) (A B : Reg) (hrA : 0 ≤ A.radius) (hrB
       exact ⟨p, by simpa using h1, h2⟩
   | ptsAnyTrue =>
     refine ⟨_, rfl, ?_⟩
-    simp only [isectHandlerOK, ctl_ka, ctl_kb, Bool.and_eq_true, beq_iff_eq, bne_iff_ne, ne_eq] at hok
+    simp only [isectHandlerOK, ctl_ka, ctl_kb, Bool.and_eq_true, Bool.or_eq_true, beq_iff_eq, bne_iff_ne, ne_eq] at hok
     obtain ⟨⟨⟨⟨ha, hb⟩, f1⟩, f2⟩, f3⟩ := hok
     have hA := fun q => (kind_pts_cases F A ha q).1
-    have hB := trueContains_eq_mem F ⟨f1, f2, f3⟩ B hb
+    have hB : ∀ p, trueContains F B p = B.mem p := by
+      rcases hb with hb | hs
+      · exact trueContains_eq_mem F ⟨f1, f2, f3⟩ B hb
+      · exact trueContains_eq_mem_all F ⟨f1, f2, f3⟩ hs B
     simp only [List.any_eq_true, hB]
     constructor
     · rintro ⟨p, hp, hm⟩
